@@ -105,7 +105,7 @@ def Cont.validate : Cont → Bool
         && card == ((words.map popcount).sum : Nat)
   | .run runs =>
       let card := (runs.map fun (_, l) => l + 1).sum
-      card != 0 && runPairsOk runs &&
+      card != 0 && runs.all (fun (s, l) => !(s + l > 65535)) && runPairsOk runs &&
         (let sr := 4 * runs.length + 2
          let sb := 8224
          let sa := 2 * card
